@@ -1,13 +1,15 @@
 #!/venv/bin/python
 """Mechanical behaviour-preserving transformations of the whole package (systematic benign twins).
 
-usage: mech_twins.py <kind> <src-root-copy>      kind in: alpha | swap | ifexp | elif | comp | hoist | all
+usage: mech_twins.py <kind> <src-root-copy>      kind in: alpha | swap | ifexp | elif | comp | hoist | all | guard | unguard | splitand | all2
 
   alpha  rename every function-local variable (tools/alpha_rename.py)
   swap   `if T: A else: B`  ->  `if not (T): B else: A`   for every if/else whose else is not an elif chain
   elif   `elif T:` -> `else:` + nested `if T:`
   comp   list comprehension assigned / returned -> explicit loop with append
   hoist  first nested call argument of an assigned / returned call -> named step
+  guard  guard clause followed by REST -> if/else;  unguard: the reverse;  splitand: `if A and B: X` -> nested ifs
+         (all2 = all + splitand + guard)
   ifexp  `x = a if c else b`  ->  `if c: x = a else: x = b`   (simple targets, statements without type comments)
 
 The edits are made on the source text (layout, comments and type comments survive).  A check that reports a
@@ -313,21 +315,160 @@ def hoist_file(path):
     return n_done
 
 
+def _has_multiline_str(nodes):
+    return any(isinstance(x, ast.Constant) and isinstance(x.value, str) and x.lineno != x.end_lineno for n in nodes for x in ast.walk(n))
+
+
+def _blocks(tree):
+    for node in ast.walk(tree):
+        for field in ("body", "orelse", "finalbody"):
+            blk = getattr(node, field, None)
+            if isinstance(blk, list) and blk and isinstance(blk[0], ast.stmt):
+                yield node, blk
+        if isinstance(node, ast.Try):
+            for h in node.handlers:
+                yield h, h.body
+
+
+def _ends_in_jump(body):
+    return isinstance(body[-1], (ast.Return, ast.Raise, ast.Continue, ast.Break))
+
+
+def guard_file(path):
+    """`if T: ...; return X` followed by REST  ->  `if T: ...; return X` / `else:` REST   (guard clause -> if/else)."""
+    n_done = 0
+    for _pass in range(200):
+        src = open(path, encoding="utf-8").read()
+        lines = src.split("\n")
+        tree = ast.parse(src)
+        cand = None
+        for _owner, blk in _blocks(tree):
+            for i, st in enumerate(blk[:-1]):
+                if isinstance(st, ast.If) and not st.orelse and _ends_in_jump(st.body) and lines[st.lineno - 1].lstrip().startswith("if "):
+                    rest = blk[i + 1:]
+                    if _has_multiline_str(rest):
+                        continue
+                    # comment lines between are moved along; the rest must start on its own line after the if
+                    if cand is None or st.lineno > cand[0].lineno:
+                        cand = (st, rest)
+        if cand is None:
+            break
+        st, rest = cand
+        indent = " " * st.col_offset
+        a, b = st.end_lineno, rest[-1].end_lineno          # lines a+1 .. b are the rest (with blank/comment lines)
+        moved = [("    " + l) if l.strip() else l for l in lines[a:b]]
+        lines[a:b] = ["%selse:  # mech:guard" % indent] + moved
+        out = "\n".join(lines)
+        ast.parse(out)
+        open(path, "w", encoding="utf-8").write(out)
+        n_done += 1
+    src = open(path, encoding="utf-8").read().replace("else:  # mech:guard", "else:")
+    open(path, "w", encoding="utf-8").write(src)
+    return n_done
+
+
+def unguard_file(path):
+    """`if T: ...; return X` / `else:` REST  ->  guard clause followed by REST dedented (the reverse of `guard`)."""
+    n_done = 0
+    for _pass in range(200):
+        src = open(path, encoding="utf-8").read()
+        lines = src.split("\n")
+        tree = ast.parse(src)
+        cand = None
+        for node in ast.walk(tree):
+            if not (isinstance(node, ast.If) and node.orelse and _ends_in_jump(node.body)):
+                continue
+            if not lines[node.lineno - 1].lstrip().startswith("if "):
+                continue      # an elif arm: removing its else would change the chain's layout, leave it
+            if len(node.orelse) == 1 and isinstance(node.orelse[0], ast.If) and node.orelse[0].col_offset == node.col_offset:
+                continue      # elif chain
+            else_ln = None
+            for ln in range(node.body[-1].end_lineno + 1, node.orelse[0].lineno):
+                if lines[ln - 1].strip() == "else:" and len(lines[ln - 1]) - len(lines[ln - 1].lstrip()) == node.col_offset:
+                    else_ln = ln
+            if else_ln is None or _has_multiline_str(node.orelse):
+                continue
+            if cand is None or node.lineno > cand[0].lineno:
+                cand = (node, else_ln)
+        if cand is None:
+            break
+        node, else_ln = cand
+        block = lines[else_ln:node.end_lineno]
+        ded = [l[4:] if l.startswith(" " * (node.col_offset + 4)) else l.lstrip() if not l.strip() else l for l in block]
+        if any(l.strip() and not b.startswith(" " * (node.col_offset + 4)) for l, b in zip(ded, block)):
+            break
+        lines[else_ln - 1:node.end_lineno] = ded
+        out = "\n".join(lines)
+        ast.parse(out)
+        open(path, "w", encoding="utf-8").write(out)
+        n_done += 1
+    return n_done
+
+
+def splitand_file(path):
+    """`if A and B: X` (no else)  ->  `if A:` / `if B: X`   (single-line tests, two operands or more: first operand split off)."""
+    n_done = 0
+    for _pass in range(200):
+        src = open(path, encoding="utf-8").read()
+        lines = src.split("\n")
+        tree = ast.parse(src)
+        cand = None
+        for node in ast.walk(tree):
+            if not (isinstance(node, ast.If) and not node.orelse and isinstance(node.test, ast.BoolOp) and isinstance(node.test.op, ast.And)):
+                continue
+            hdr = lines[node.lineno - 1]
+            if not hdr.lstrip().startswith("if ") or node.test.lineno != node.test.end_lineno or "#" in hdr or "mech:split" in hdr:
+                continue
+            tail = hdr.encode("utf-8")[node.test.end_col_offset:].decode("utf-8").strip()
+            if tail != ":" or _has_multiline_str(node.body) or node.body[0].lineno == node.lineno:
+                continue
+            if hdr.strip() != "if %s:" % _seg(lines, node.test):
+                continue      # parenthesised test
+            hb = hdr.encode("utf-8")
+            if hb[node.test.col_offset:node.test.values[0].col_offset].strip() or \
+                    not hb[node.test.values[0].end_col_offset:node.test.end_col_offset].decode("utf-8").lstrip().startswith("and "):
+                continue      # parenthesised first operand
+            if cand is None or node.lineno > cand.lineno:
+                cand = node
+        if cand is None:
+            break
+        node = cand
+        indent = " " * node.col_offset
+        first = node.test.values[0]
+        a = _seg(lines, first)
+        rest = lines[node.lineno - 1].encode("utf-8")[first.end_col_offset:node.test.end_col_offset].decode("utf-8").lstrip()[4:].lstrip()
+        body = [("    " + l) if l.strip() else l for l in lines[node.lineno:node.end_lineno]]
+        lines[node.lineno - 1:node.end_lineno] = ["%sif %s:  # mech:split" % (indent, a), "%s    if %s:  # mech:split" % (indent, rest)] + body
+        out = "\n".join(lines)
+        ast.parse(out)
+        open(path, "w", encoding="utf-8").write(out)
+        n_done += 1
+    src = open(path, encoding="utf-8").read().replace("  # mech:split", "")
+    open(path, "w", encoding="utf-8").write(src)
+    return n_done
+
+
 def transform(kind, root):
     total = 0
     for p in _files(root):
-        if kind in ("alpha", "all"):
+        if kind in ("alpha", "all", "all2"):
             total += alpha_rename.apply(p, "_rn")
-        if kind in ("ifexp", "all"):
+        if kind in ("ifexp", "all", "all2"):
             total += ifexp_file(p)
-        if kind in ("comp", "all"):
+        if kind in ("comp", "all", "all2"):
             total += comp_file(p)
-        if kind in ("hoist", "all"):
+        if kind in ("hoist", "all", "all2"):
             total += hoist_file(p)
-        if kind in ("elif", "all"):
+        if kind in ("elif", "all", "all2"):
             total += elif_file(p)
-        if kind in ("swap", "all"):
+        if kind in ("swap", "all", "all2"):
             total += swap_file(p)
+        if kind in ("splitand", "all2"):
+            total += splitand_file(p)
+        if kind in ("unguard",):
+            total += unguard_file(p)
+        if kind in ("guard", "all2"):
+            total += guard_file(p)
     return total
 
 
